@@ -293,3 +293,23 @@ mod tests {
         });
     }
 }
+
+// Verification hooks. Compiled only with `--cfg evenio_verif`.
+#[cfg(evenio_verif)]
+impl Entities {
+    pub(crate) fn verif_locs(&self) -> &SlotMap<EntityLocation> {
+        &self.locs
+    }
+
+    pub(crate) fn verif_locs_mut(&mut self) -> &mut SlotMap<EntityLocation> {
+        &mut self.locs
+    }
+}
+
+#[cfg(evenio_verif)]
+impl ReservedEntities {
+    /// `(cursor index, count)`.
+    pub(crate) fn verif_state(&self) -> (u32, u32) {
+        (self.iter.verif_index(), self.count)
+    }
+}
